@@ -231,3 +231,100 @@ def pick_str_id(i):
 
 def outbound_s(kind, idsel, method, psel, leaf, typed):
     return outbound(kind, pick_str_id(idsel), method, psel, leaf, typed)
+
+
+# ------------------------------------------------------------------ round trips: two requests, each answered the carrier's own way
+def pick_rt_id(i):
+    if i == 0:
+        return "r1"
+    if i == 1:
+        return 5
+    if i == 2:
+        return 0
+    if i == 3:
+        return "5"
+    return -7
+
+
+def roundtrip(idsel1, idsel2, n_notes, legacy_mode, typed):
+    """request 1 and request 2 are sent one after the other; the server answers each with n_notes notifications
+    followed by the response.  stdio: lines; Streamable HTTP/JSON: the response as the POST body (this carrier cannot
+    express the notifications: they are left out of its comparison); Streamable HTTP/SSE: an event-stream body;
+    legacy SSE: 202 + events on the stream (mode 1), events racing the 202 (mode 2) or 200 + body with the
+    notifications on the stream (mode 0).  The read stream must hold the same messages in the same order."""
+    import copy
+    import json as _json
+
+    r1, r2 = pick_rt_id(idsel1), pick_rt_id(idsel2)
+    if same_json(r1, r2):
+        return "ok"
+    turns = []
+    seq = 0
+    for rid in (r1, r2):
+        notes = []
+        for _ in range(n_notes):
+            notes.append({"jsonrpc": "2.0", "method": "notifications/message", "params": {"seq": seq}})
+            seq += 1
+        turns.append((rid, notes, {"jsonrpc": "2.0", "id": rid, "result": {"ok": seq}}))
+    expected = [m for (_r, ns, resp) in turns for m in ns + [resp]]
+    expected_no_notes = [resp for (_r, _ns, resp) in turns]
+
+    def mk(rid):
+        d = {"jsonrpc": "2.0", "id": rid, "method": "tools/list"}
+        return JM.JSONRPCMessage(**d) if typed else d
+
+    # 1 stdio
+    c = make_client()
+    for d in expected:
+        drive(c._process_message_data(copy.deepcopy(d)))
+    got = [dump(m) for m in c._incoming_send.items]
+    if not same_json(got, expected):
+        return "roundtrip-differs-on:stdio"
+    # 2 Streamable HTTP / JSON
+    H11.W.plan, H11.W.posts = [], []
+    t = H11.make_transport()
+    for rid, _ns, resp in turns:
+        H11.W.plan.append(("resp", H11.FakeResponse(200, {"Content-Type": "application/json"}, _json.dumps(resp).encode())))
+    for rid, _ns, _resp in turns:
+        drive(t._send_message_internal(mk(rid)))
+    got = [dump(m) for m in t._incoming_send.items]
+    if not same_json(got, expected_no_notes):
+        return "roundtrip-differs-on:http-json"
+    # 3 Streamable HTTP / SSE body
+    H11.W.plan, H11.W.posts = [], []
+    t = H11.make_transport()
+    for rid, ns, resp in turns:
+        body = "".join("event: message\ndata: " + _json.dumps(m) + "\n\n" for m in ns + [resp])
+        H11.W.plan.append(("resp", H11.FakeResponse(200, {"Content-Type": "text/event-stream"}, body.encode())))
+    for rid, _ns, _resp in turns:
+        drive(t._send_message_internal(mk(rid)))
+    got = [dump(m) for m in t._incoming_send.items]
+    if not same_json(got, expected):
+        return "roundtrip-differs-on:http-sse"
+    # 4 legacy SSE
+    chunks, plan = [], []
+    for rid, ns, resp in turns:
+        evs = ["event: message\ndata: " + _json.dumps(m) + "\n\n" for m in ns]
+        if legacy_mode == 0:
+            chunks += evs
+            plan.append({"status": 200, "body": _json.dumps(resp).encode(), "deliver_during_post": len(evs)})
+        else:
+            evs.append("event: message\ndata: " + _json.dumps(resp) + "\n\n")
+            chunks += evs
+            plan.append({"status": 202, "deliver_during_post": (len(evs) if legacy_mode == 2 else 0)})
+    H12._reset(chunks, "silent")
+    H12.W.plan = plan
+    t3 = H12._transport()
+    t3._incoming_send = Rec()
+    t3._message_url = "http://srv/messages/?session_id=s"
+    t3._send_client = H12.FakeClient()
+    t3._sse_response = H12._SSEResponse(200)
+    H12.W.sse_task = H12.STask(t3._process_sse_stream())
+    for rid, _ns, _resp in turns:
+        H12._drive_top(t3._send_message_via_http(mk(rid)))
+    while H12.W.deliver_next():
+        pass
+    got = [dump(m) for m in t3._incoming_send.items]
+    if not same_json(got, expected):
+        return "roundtrip-differs-on:legacy-sse"
+    return "ok"
